@@ -402,7 +402,7 @@ class _Run:
         fam = {"q": self.pint.Quantity, "u": self.pint.Unit, "m": self.pint.Measurement}[kind]
         if not isinstance(got, fam):
             raise Violation("C18.registry", s["id"], {"how": how, "kind": kind, "class": type(got).__name__})
-        if how != "pickle":
+        if how != "pickle" and got._REGISTRY is rec["obj"]._REGISTRY:
             eq = got == rec["obj"]
             ok = bool(eq.all()) if hasattr(eq, "all") else bool(eq)
             if kind == "m":
